@@ -24,13 +24,14 @@ const (
 )
 
 type TierSpec struct {
-	Split   []int  `json:"split,omitempty"`    // sizes of the leading vfChoice dimensions that are spread over workers
-	Budget  int    `json:"budget_s,omitempty"` // wall budget per job
-	Unwind  int    `json:"unwind,omitempty"`
-	Bounds  string `json:"bounds"` // human-readable statement of the bound for this tier
-	FeasMs  int    `json:"feas_ms,omitempty"`
-	FinalMs int    `json:"final_ms,omitempty"`
-	Alloc   int    `json:"alloc,omitempty"`
+	Split      []int  `json:"split,omitempty"`    // sizes of the leading vfChoice dimensions that are spread over workers
+	Budget     int    `json:"budget_s,omitempty"` // wall budget per job
+	Unwind     int    `json:"unwind,omitempty"`
+	Bounds     string `json:"bounds"` // human-readable statement of the bound for this tier
+	FeasMs     int    `json:"feas_ms,omitempty"`
+	FinalMs    int    `json:"final_ms,omitempty"`
+	Alloc      int    `json:"alloc,omitempty"`
+	AllocLimit int    `json:"alloc_limit,omitempty"`
 }
 
 type HarnessSpec struct {
@@ -166,6 +167,7 @@ func cmdCheck(args []string) {
 	noReplay := fs.Bool("noreplay", false, "skip native replays (debugging)")
 	survey := fs.Bool("survey", false, "development: do not stop at the first violation, list every distinct failing (label, site)")
 	replayPath := fs.String("replay", "", "re-run one stored replay file natively and exit")
+	cases := fs.String("cases", "", "development: only run the jobs whose case prefix is listed, e.g. \"14;2,0\"")
 	fs.Parse(args)
 	if *replayPath != "" {
 		os.Exit(cmdReplay(*replayPath))
@@ -292,6 +294,18 @@ func cmdCheck(args []string) {
 			prefixes = np
 		}
 		for _, p := range prefixes {
+			if *cases != "" {
+				key := strings.Trim(strings.ReplaceAll(fmt.Sprint(p), " ", ","), "[]")
+				hit := false
+				for _, c := range strings.Split(*cases, ";") {
+					if c == key {
+						hit = true
+					}
+				}
+				if !hit {
+					continue
+				}
+			}
 			jobs = append(jobs, &job{spec: h, prefix: p})
 		}
 	}
@@ -336,6 +350,9 @@ func cmdCheck(args []string) {
 				if ts.Alloc > 0 {
 					cfg.AllocBound = ts.Alloc
 				}
+				if ts.AllocLimit > 0 {
+					cfg.AllocLimit = ts.AllocLimit
+				}
 				budget := ts.Budget
 				if budget == 0 {
 					budget = 600
@@ -371,7 +388,17 @@ func cmdCheck(args []string) {
 				mu.Lock()
 				done++
 				if *verbose > 0 {
-					fmt.Printf("  [%d/%d] %s %v: %s paths=%d wall=%.1fs\n", done, len(jobs), h.ID, j.prefix, j.res.Verdict, j.res.Stats.Paths, j.res.WallS)
+					first := ""
+					for _, p := range j.res.Paths {
+						if p.Kind == "violation" || p.Kind == "known" || p.Kind == "inconclusive" {
+							first = " :: " + p.Kind + " " + p.Label + " @ " + p.Site
+							break
+						}
+					}
+					if first == "" && len(j.res.Events) > 0 {
+						first = " :: event " + j.res.Events[0].Kind + " " + j.res.Events[0].Msg
+					}
+					fmt.Printf("  [%d/%d] %s %v: %s paths=%d wall=%.1fs%s\n", done, len(jobs), h.ID, j.prefix, j.res.Verdict, j.res.Stats.Paths, j.res.WallS, first)
 				}
 				mu.Unlock()
 			}
